@@ -90,3 +90,50 @@ func TestIntroStaysBeforeOversizedList(t *testing.T) {
 		t.Fatalf("intro paragraph (at %d) does not precede its list (at %d)", i, j)
 	}
 }
+
+// the section path of a heading chunk must stay the chain of headings enclosing it
+func TestSectionPathNotOverwrittenBySibling(t *testing.T) {
+	doc := model.NewDocument()
+	pg := model.NewPage(612, 792)
+	for _, h := range []struct {
+		lvl  int
+		text string
+	}{{1, "A"}, {2, "B"}, {2, "C"}, {2, "D"}} {
+		pg.AddElement(&model.Heading{Text: h.text, Level: h.lvl})
+		pg.AddElement(&model.Paragraph{Text: "body of " + h.text})
+	}
+	doc.AddPage(pg)
+	coll := rag.ChunkDocument(doc)
+	for _, c := range coll.Chunks {
+		if c.Text == "B" {
+			if got := strings.Join(c.Metadata.SectionPath, "/"); got != "A/B" {
+				t.Fatalf("heading chunk B has section path %q, want A/B", got)
+			}
+			return
+		}
+	}
+	t.Fatal("heading chunk B not found")
+}
+
+// skipped heading levels: the second H3 replaces the first, it does not nest under it
+func TestSectionPathSkippedLevels(t *testing.T) {
+	doc := model.NewDocument()
+	pg := model.NewPage(612, 792)
+	for _, h := range []struct {
+		lvl  int
+		text string
+	}{{1, "A"}, {3, "X"}, {4, "Z"}, {3, "Y"}} {
+		pg.AddElement(&model.Heading{Text: h.text, Level: h.lvl})
+		pg.AddElement(&model.Paragraph{Text: "body of " + h.text})
+	}
+	doc.AddPage(pg)
+	for _, c := range rag.ChunkDocument(doc).Chunks {
+		if c.Text == "body of Y" {
+			if got := strings.Join(c.Metadata.SectionPath, "/"); got != "A/Y" {
+				t.Fatalf("paragraph under the second H3 has section path %q, want A/Y", got)
+			}
+			return
+		}
+	}
+	t.Fatal("paragraph chunk not found")
+}
